@@ -79,3 +79,122 @@ HINTS = ["default", "alt", "any"]
 
 def expected_for(G, v, hints):
     return erase(G, 1, v) if hints == "any" else v
+
+
+def write_scope(scope, tag):
+    d = common.workdir(f"{tag}-{os.getpid()}")
+    path = os.path.join(d, "scope.ndjson")
+    with open(path, "w") as f:
+        for sc in scope:
+            f.write(json.dumps(sc, separators=(",", ":")) + "\n")
+    return path
+
+
+def validate_events(module, cfg, events, scope_path, on_reject, chunk=200, timeout=1500, env=None):
+    """Trace-validate `events` (split over parallel JVMs). Every rejected event is reported through
+    on_reject(global index) and the remainder of its chunk is still validated. Returns number of traces run."""
+    if not events:
+        return 0
+    e = dict(env or {})
+    if scope_path:
+        e["VERIF_SCOPE"] = scope_path
+    nchunks = min(common.NCPU, max(1, len(events) // chunk))
+    chunks = [events[k::nchunks] for k in range(nchunks)]
+    idxs = [list(range(len(events)))[k::nchunks] for k in range(nchunks)]
+    results = common.validate_traces_parallel(module, cfg, chunks, env=e, timeout=timeout)
+    traces = nchunks
+    for k, res in enumerate(results):
+        rest, rest_idx = chunks[k], idxs[k]
+        guard = 0
+        while not res["accepted"]:
+            fu = res["first_unmatched"]
+            if fu is None or fu < 1 or fu > len(rest):
+                raise common.ToolError(f"{module}: trace validation failed without a usable reject index:\n" + res["out"][-2500:])
+            on_reject(rest_idx[fu - 1])
+            rest, rest_idx = rest[fu:], rest_idx[fu:]
+            guard += 1
+            if not rest or guard > 30:
+                break
+            res = common.validate_trace(module, cfg, rest, env=e, timeout=timeout)
+            traces += 1
+    return traces
+
+
+def binding_check(module, cfg, good_event, corrupt, scope_path, env=None):
+    """The trace specification must accept the recorded event and reject its corrupted twin; otherwise it is
+    vacuous or broken: a tool error, never a verdict."""
+    e = dict(env or {})
+    if scope_path:
+        e["VERIF_SCOPE"] = scope_path
+    r1 = common.validate_trace(module, cfg, [good_event], env=e, timeout=300)
+    if not r1["accepted"]:
+        return  # the event itself is a violation; reported elsewhere
+    r2 = common.validate_trace(module, cfg, [corrupt(good_event)], env=e, timeout=300)
+    if r2["accepted"]:
+        raise common.ToolError(f"{module} accepted a corrupted event: the trace specification is vacuous")
+
+
+# ---- stimulus generation: canonical presentations of a value (transcription of SerdeModel!Canon, styles "named"/"rust")
+TYPE_NAMES = {"null": "Null", "boolean": "Boolean", "int": "Int", "long": "Long", "float": "Float", "double": "Double",
+              "bytes": "Bytes", "string": "String", "array": "Array", "map": "Map", "decimal_bytes": "Decimal",
+              "bigdecimal": "BigDecimal", "uuid": "Uuid", "date": "Date", "time-millis": "TimeMillis",
+              "time-micros": "TimeMicros", "timestamp-millis": "TimestampMillis", "timestamp-micros": "TimestampMicros",
+              "duration": "Duration"}
+
+
+def branch_name(n):
+    if n["k"] in ("record", "enum", "fixed") and pyavro.eff(n) != "duration":
+        return n["name"]
+    return list(TYPE_NAMES.get(pyavro.eff(n), "").encode())
+
+
+def short_name(full):
+    s = bytes(full).decode()
+    return list(s.rsplit(".", 1)[-1].encode())
+
+
+def canon_pres(G, key, v, style="named"):
+    n = G[key - 1]
+    e = pyavro.eff(n)
+    if e == "null":
+        return {"p": "unit"}
+    if e == "boolean":
+        return {"p": "bool", "i": v["i"]}
+    if e in pyavro.INT_LIKE:
+        return {"p": "i32", "v": v["v"]}
+    if e in pyavro.LONG_LIKE:
+        return {"p": "i64", "v": v["v"]}
+    if e == "float":
+        return {"p": "f32", "v": v["v"]}
+    if e == "double":
+        return {"p": "f64", "v": v["v"]}
+    if e in ("bytes", "fixed", "duration"):
+        return {"p": "bytes", "v": v["v"]}
+    if e in ("string", "uuid"):
+        return {"p": "str", "v": v["v"]}
+    if e == "enum":
+        return {"p": "unit_variant", "name": short_name(n["name"]), "idx": v["i"], "variant": n["symbols"][v["i"]]}
+    if e in ("decimal_bytes", "decimal_fixed", "bigdecimal"):
+        return {"p": "str", "v": list(dec_text(v["v"], v["s"]).encode())}
+    if e == "array":
+        return {"p": "seq", "len": len(v["es"]), "es": [canon_pres(G, n["items"], x, style) for x in v["es"]]}
+    if e == "map":
+        return {"p": "map", "len": len(v["kv"]), "mode": "entry",
+                "kv": [[{"p": "str", "v": k}, canon_pres(G, n["values"], x, style)] for k, x in v["kv"]]}
+    if e == "record":
+        return {"p": "struct", "name": short_name(n["name"]),
+                "fs": [[f["n"], canon_pres(G, f["t"], x, style)] for f, x in zip(n["fields"], v["es"])]}
+    if e == "union":
+        bk = n["variants"][v["b"]]
+        bn = G[bk - 1]
+        inner = canon_pres(G, bk, v["x"], style)
+        nm = branch_name(bn)
+        named = inner if not nm else {"p": "newtype_variant", "name": [85], "idx": v["b"], "variant": nm, "x": inner}
+        if style == "rust":
+            effs = [pyavro.eff(G[k - 1]) for k in n["variants"]]
+            if len(effs) == 2 and effs.count("null") == 1:
+                return {"p": "none"} if pyavro.eff(bn) == "null" else {"p": "some", "x": inner}
+            if pyavro.eff(bn) == "null":
+                return {"p": "unit_variant", "name": [85], "idx": v["b"], "variant": list(b"Null")}
+        return named
+    raise ValueError(e)
